@@ -26,7 +26,7 @@ ASSUMPTIONS = [
     "when a search range is given, criteria that scan neighbouring frequencies may be evaluated on the whole curve or on the curve restricted to the range (the guideline has no notion of a search range); both readings are accepted",
     "a verdict whose deciding comparison is within 1e-9 of its threshold, or whose peak is tied, is not judged; at an exact band edge either adjacent column is accepted",
 ]
-NOT_REACHED = ["curves without a peak in the range (refused / undefined)", "grids above 400 points"]
+NOT_REACHED = ["curves without a peak in the range (refused / undefined)", "grids above 10000 points"]
 BUDGET = {"quick": dict(cases=15000, seconds=60, shards=4),
           "thorough": dict(cases=1500000, seconds=600, shards=16)}
 REQUIRED = ["mon:reliability-verdicts", "mon:clarity-verdicts", "mon:more-windows-never-fail-ii",
@@ -54,6 +54,11 @@ def gen_case(rng, coarse=False):
         # neighbouring samples right at the +-5 % band of criterion iv (1.05 above, 1/0.95 = 1.0526 for the sample below)
         ratio = float(rng.choice([1.047, 1.0495, 1.0505, 1.0515, 1.0522, 1.0529, 1.055]))
     nlo, nhi = int(rng.integers(2, 30)), int(rng.integers(2, 30))
+    dense = (not coarse) and rng.random() < 0.006
+    if dense:
+        # an un-resampled curve: thousands of closely spaced samples, the highest peak only a few samples wide
+        ratio = float(rng.choice([1.0004, 1.0008]))
+        nlo, nhi = int(rng.integers(2500, 5000)), int(rng.integers(2500, 5000))
     f = f0 * ratio ** np.arange(-nlo, nhi + 1)
     p = nlo
     lf = np.log(f / f0)
@@ -65,6 +70,13 @@ def gen_case(rng, coarse=False):
         c = rng.uniform(lf[0], lf[-1])
         mean = mean + rng.uniform(0.05, 0.6) * (a0 - base) * np.exp(-0.5 * ((lf - c) / rng.uniform(0.05, 0.3)) ** 2)
     mean = np.maximum(mean, 0.05)
+    if dense:
+        mean = 0.6 * mean
+        top = float(np.max(mean))                                             # a spike one or three samples wide above everything else
+        if rng.random() < 0.5:
+            mean[p - 1:p + 2] = top * np.array([1.2, 1.9, 1.2])
+        else:
+            mean[p] = top * 1.9
     mean[p] = max(mean[p], np.max(mean) * (1.0 + 1e-3)) if rng.random() < 0.8 else mean[p]
     flat_top = rng.random() < 0.15
     if flat_top and p + 2 < f.size:
